@@ -11,6 +11,7 @@ import ShapeVerif.Props.C12
 import ShapeVerif.Lemmas.FromStrTotal
 import ShapeVerif.Lemmas.ParseFuel
 import ShapeVerif.Lemmas.LexFuel
+import ShapeVerif.Lemmas.ParseDepth
 namespace ShapeVerif
 open Shape
 
@@ -167,5 +168,19 @@ is preceded by the consumption of a token -/
 theorem parser_steps_linear (s : PState) (hc : Coh s) (fuel : Nat) (h : 2 * s.toks.length + 1 ≤ fuel) :
     ruleValueO fuel s = some (ruleValue fuel s) :=
   (ruleValue_fuel_irrelevant s hc fuel fuel h h).1
+
+/-! ### no stack overflow: bounded recursion depth
+
+The generated parser's `rule_object` / `rule_member` / `rule_array` / `rule_literal` / `rule_boolean`
+each close exactly one node of the tree (`rule_value` is elided), and `parse_cst`'s `parse_rule` /
+`parse_member` descend one level of that tree per call: the number of nested stack frames of either
+phase is the depth of the tree (plus a constant). For **every** string that depth is at most 516:
+the lexer stops at the first token that would bring the number of open brackets above 256
+(`tokenize_depth`, with or without diagnostics), and the recovering parser opens a nested node only
+after consuming an opening bracket that is still open — stray closing brackets are never skipped by
+the recovery loops, they end them (`rules_depth`). -/
+theorem tree_depth_bounded (cs : List Char) :
+    depthOk ((tokenize cs).tokens.map (·.kind)) = true ∧ (parse cs).root.depth ≤ 516 :=
+  ⟨tokenize_depth cs, parse_tree_depth cs⟩
 
 end ShapeVerif
